@@ -368,6 +368,45 @@ class ThreadedHTTPServer(socketserver.ThreadingMixIn, HTTPServer):
     # to be known by the OS from a previous run.
     allow_reuse_address = True
 
+    def __init__(self, *args, **kwargs):
+        # Connections whose request is currently being handled
+        self._open_requests = set()
+        self._open_requests_lock = threading.Lock()
+        super().__init__(*args, **kwargs)
+
+    def process_request_thread(self, request, client_address):
+        """
+        Overrides the inherited method to keep track of the connections whose
+        request is currently being handled.
+        """
+        with self._open_requests_lock:
+            self._open_requests.add(request)
+        try:
+            super().process_request_thread(request, client_address)
+        finally:
+            with self._open_requests_lock:
+                self._open_requests.discard(request)
+
+    def shutdown_open_requests(self):
+        """
+        Shut down the receiving side of the connections whose request is
+        currently being handled.
+
+        A request handler that waits for (more) data from a sender that has
+        stalled sees the end of the data and terminates, so that
+        server_close() does not wait for it forever. Responses to requests
+        that have been received completely can still be sent.
+        """
+        with self._open_requests_lock:
+            requests = list(self._open_requests)
+        for request in requests:
+            try:
+                # Not the shutdown() method of ssl.SSLSocket, which would
+                # drop the TLS layer of the connection.
+                socket.socket.shutdown(request, socket.SHUT_RD)
+            except OSError:
+                pass  # Already closed or not connected anymore
+
 
 def make_server(logger, host, port, handler):
     """
@@ -1556,7 +1595,9 @@ class WBEMListener:
         stopped.
 
         When stopping the WBENM listener, the listener threads are first
-        stopped to make sure that no new indications can be received. Then, the
+        stopped to make sure that no new indications can be received. Requests
+        that have not been received completely at that point (e.g. from a
+        sender that has stalled) are not waited for. Then, the
         callback thread completes its delivery of indications that are in the
         indication queue, and when the queue is empty, the callback thread is
         stopped.
@@ -1617,6 +1658,7 @@ class WBEMListener:
             self.logger.info(
                 "Stopping threaded HTTP server and its listener thread")
             self._http_server.shutdown()
+            self._http_server.shutdown_open_requests()
             self._http_server.server_close()
             self._http_thread.join()
             self._http_server = None
@@ -1628,6 +1670,7 @@ class WBEMListener:
             self.logger.info(
                 "Stopping threaded HTTPS server and its listener thread")
             self._https_server.shutdown()
+            self._https_server.shutdown_open_requests()
             self._https_server.server_close()
             self._https_thread.join()
             self._https_server = None
